@@ -61,7 +61,7 @@ Definition round_fix_abs (a b : Z) : Z * Z :=
   if (b <? dif) || ((dif =? b) && negb (grem q 2 =? 0)) then (wrap64 (q + 1), wrap64 (a - wrap64 (wrap64 (q + 1) * b))) else (q, r).
 
 Lemma round_fix_unfold tn d : round_fix Round tn d =
-  if d =? 0 then RCond CFault else
+  if d =? 0 then RCond CDivZero else
   let q0 := gquot tn d in let r0 := wrap64 (tn - wrap64 (q0 * d)) in
   if r0 =? 0 then RVals (VFix q0) (VFix r0)
   else
@@ -130,10 +130,11 @@ Proof.
   intros Hp. cbn [in_domain] in Hp. apply andb_true_iff in Hp as [Hf Hp].
   destruct (all_fix_spec args Hf) as [Hargs Hin]. remember (fixes args) as zs. rewrite Hargs in *. clear Hargs Heqzs Hf.
   destruct zs as [|n [|d [|? ?]]]; try discriminate.
+  destruct (d =? 0) eqn:Hnz; [apply Z.eqb_eq in Hnz; subst d; reflexivity|].
+  cbn [orb] in Hp.
   cbn in Hin. apply andb_true_iff in Hin as [Hn Hin]. apply andb_true_iff in Hin as [Hd _].
-  apply andb_true_iff in Hp as [Hp Hm]. apply andb_true_iff in Hp as [Hnz Hq].
+  apply andb_true_iff in Hp as [Hq Hm].
   apply andb_true_iff in Hm as [Hm H2r]. apply andb_true_iff in Hm as [Han Had].
-  apply negb_true_iff in Hnz.
   cbn [map s_out denotes denote m_op m_round s_op norm_kind as_int]. rewrite Hnz.
   rewrite round_fix_unfold, Hnz. cbv zeta.
   apply in64_spec in Hn, Hd. apply Z.eqb_neq in Hnz.
